@@ -2,9 +2,9 @@ SPECIFICATION Spec
 CONSTANTS
     Mode = "tree"
     Depth = 12
-    MaxCalls = 9
-    Calls <- FullCalls
-    Probes <- FullCalls
+    MaxCalls = 12
+    Calls <- QuickCalls
+    Probes <- QuickCalls
     Debug = FALSE
     HookMode = "ok"
     PvSet = FALSE
